@@ -217,6 +217,134 @@ proof fn lemma_root_rep(p: Seq<usize>, r: int)
 }
 
 
+
+// linking root x under root y
+proof fn lemma_link_one(p: Seq<usize>, x: int, y: int, z: int, n: nat)
+    requires in_range(p), acyclic(p), 0 <= x < p.len(), 0 <= y < p.len(), x != y, p[x] == x, p[y] == y,
+        0 <= z < p.len(), up(p, z, n) == rep(p, z),
+    ensures reaches(p.update(x, y as usize), z, if rep(p, z) == x { y } else { rep(p, z) })
+    decreases n
+{
+    let p2 = p.update(x, y as usize);
+    lemma_rep_props(p, z);
+    let r = rep(p, z);
+    if z == x {
+        lemma_root_rep(p, x);
+        assert(up(p2, y, 0) == y);
+        assert(up(p2, z, 1) == y);
+        assert(is_root(p2, y));
+    } else if p[z] == z {
+        lemma_root_rep(p, z);
+        assert(up(p2, z, 0) == z);
+        assert(is_root(p2, z));
+    } else {
+        if n == 0 { assert(false); }
+        lemma_rep_step(p, z);
+        lemma_link_one(p, x, y, p[z] as int, (n - 1) as nat);
+        let tgt = if r == x { y } else { r };
+        let m = choose|m: nat| up(p2, p[z] as int, m) == tgt;
+        assert(p2[z] == p[z]);
+        assert(up(p2, z, m + 1) == tgt);
+    }
+}
+
+proof fn lemma_link(p: Seq<usize>, x: int, y: int)
+    requires in_range(p), acyclic(p), 0 <= x < p.len(), 0 <= y < p.len(), x != y, p[x] == x, p[y] == y,
+    ensures in_range(p.update(x, y as usize)), acyclic(p.update(x, y as usize)),
+        forall|z: int| rep(p.update(x, y as usize), z) == (if rep(p, z) == x { y } else { rep(p, z) })
+{
+    let p2 = p.update(x, y as usize);
+    assert(in_range(p2));
+    assert forall|z: int| 0 <= z < p2.len() implies #[trigger] good2(p2, p, x, y, z) by {
+        lemma_rep_props(p, z);
+        let n = choose|n: nat| up(p, z, n) == rep(p, z);
+        lemma_link_one(p, x, y, z, n);
+    }
+    assert forall|z: int| 0 <= z < p2.len() implies #[trigger] has_root(p2, z) by { assert(good2(p2, p, x, y, z)); }
+    assert forall|z: int| rep(p2, z) == (if rep(p, z) == x { y } else { rep(p, z) }) by {
+        if 0 <= z < p2.len() {
+            assert(good2(p2, p, x, y, z));
+            lemma_rep_is(p2, z, if rep(p, z) == x { y } else { rep(p, z) });
+        } else {
+            // outside the table: rep is z itself; z != x since x is inside
+        }
+    }
+}
+
+pub open spec fn good2(p2: Seq<usize>, p: Seq<usize>, x: int, y: int, z: int) -> bool {
+    reaches(p2, z, if rep(p, z) == x { y } else { rep(p, z) })
+}
+
+
+// ---- overflow safety of `rank[x] = rx + 1`: sum of ranks <= number of non-roots (aux, not part of the partition semantics)
+pub open spec fn total(r: Seq<usize>) -> int decreases r.len() {
+    if r.len() == 0 { 0 } else { total(r.drop_last()) + r.last() }
+}
+pub open spec fn nonroots(p: Seq<usize>) -> int decreases p.len() {
+    if p.len() == 0 { 0 } else { nonroots(p.drop_last()) + (if p.last() != p.len() - 1 { 1int } else { 0int }) }
+}
+proof fn lemma_total_update(r: Seq<usize>, k: int, v: usize)
+    requires 0 <= k < r.len()
+    ensures total(r.update(k, v)) == total(r) - r[k] + v
+    decreases r.len()
+{
+    let r2 = r.update(k, v);
+    if k == r.len() - 1 {
+        assert(r2.drop_last() =~= r.drop_last());
+    } else {
+        assert(r2.drop_last() =~= r.drop_last().update(k, v));
+        lemma_total_update(r.drop_last(), k, v);
+    }
+}
+proof fn lemma_total_ge(r: Seq<usize>, k: int)
+    requires 0 <= k < r.len()
+    ensures total(r) >= r[k], total(r) >= 0
+    decreases r.len()
+{
+    lemma_total_nonneg(r.drop_last());
+    if k < r.len() - 1 { lemma_total_ge(r.drop_last(), k); }
+}
+proof fn lemma_total_nonneg(r: Seq<usize>)
+    ensures total(r) >= 0
+    decreases r.len()
+{
+    if r.len() > 0 { lemma_total_nonneg(r.drop_last()); }
+}
+proof fn lemma_nonroots_update(p: Seq<usize>, k: int, v: usize)
+    requires 0 <= k < p.len()
+    ensures nonroots(p.update(k, v)) == nonroots(p) - (if p[k] != k { 1int } else { 0int }) + (if v != k { 1int } else { 0int })
+    decreases p.len()
+{
+    let p2 = p.update(k, v);
+    if k == p.len() - 1 {
+        assert(p2.drop_last() =~= p.drop_last());
+    } else {
+        assert(p2.drop_last() =~= p.drop_last().update(k, v));
+        lemma_nonroots_update(p.drop_last(), k, v);
+    }
+}
+proof fn lemma_nonroots_bound(p: Seq<usize>)
+    ensures 0 <= nonroots(p) <= p.len()
+    decreases p.len()
+{
+    if p.len() > 0 { lemma_nonroots_bound(p.drop_last()); }
+}
+proof fn lemma_nonroots_root(p: Seq<usize>, x: int)
+    requires 0 <= x < p.len(), p[x] == x
+    ensures nonroots(p) <= p.len() - 1
+    decreases p.len()
+{
+    if x == p.len() - 1 { lemma_nonroots_bound(p.drop_last()); }
+    else { lemma_nonroots_root(p.drop_last(), x); }
+}
+proof fn lemma_push_counts(p: Seq<usize>, r: Seq<usize>)
+    requires p.len() < usize::MAX
+    ensures nonroots(p.push(p.len() as usize)) == nonroots(p), total(r.push(0)) == total(r)
+{
+    assert(p.push(p.len() as usize).drop_last() =~= p);
+    assert(r.push(0).drop_last() =~= r);
+}
+
 // ---------------- exec code (bodies verbatim from /repo/src/util/partitions.rs) ----------------
 struct IntPartitionImpl {
     rank: Vec<usize>,
@@ -228,6 +356,8 @@ impl IntPartitionImpl {
         &&& self.rank@.len() == self.parent@.len()
         &&& in_range(self.parent@)
         &&& acyclic(self.parent@)
+        &&& total(self.rank@) <= nonroots(self.parent@)
+        &&& self.parent@.len() <= usize::MAX
     }
 
     spec fn srep(&self, x: int) -> int { rep(self.parent@, x) }
@@ -243,6 +373,7 @@ impl IntPartitionImpl {
             r == old(self).srep(a as int),
             forall|x: int| final(self).srep(x) == old(self).srep(x),
             final(self).parent@.len() > a,
+            final(self).parent@.len() >= old(self).parent@.len(),
     {
         let mut x = a;
         let mut root = x;
@@ -258,13 +389,14 @@ impl IntPartitionImpl {
                 self.parent@.len() == old(self).parent@.len() + it.index(),
                 0 <= it.index() <= it.seq().len(),
         {
-            proof { lemma_push(self.parent@); }
+            proof { lemma_push(self.parent@); lemma_push_counts(self.parent@, self.rank@); }
             self.parent.push(i);
             self.rank.push(0);
         }
 
         while self.parent[root] != root
             invariant self.wf(), root < self.parent@.len(), a < self.parent@.len(),
+                self.parent@.len() >= old(self).parent@.len(),
                 self.srep(root as int) == self.srep(a as int),
                 forall|x: int| self.srep(x) == old(self).srep(x),
         {
@@ -275,17 +407,69 @@ impl IntPartitionImpl {
 
         while x != root
             invariant self.wf(), root < self.parent@.len(), x < self.parent@.len(), a < self.parent@.len(),
+                self.parent@.len() >= old(self).parent@.len(),
                 self.srep(x as int) == root, self.parent@[root as int] == root,
                 root == old(self).srep(a as int),
                 forall|x: int| self.srep(x) == old(self).srep(x),
         {
-            proof { lemma_rep_step(self.parent@, x as int); lemma_compress_all(self.parent@, x as int); }
+            proof { lemma_rep_step(self.parent@, x as int); lemma_compress_all(self.parent@, x as int);
+                    lemma_nonroots_update(self.parent@, x as int, root); }
             let t = x;
             x = self.parent[x];
             self.parent[t] = root;
         }
 
         root
+    }
+
+    fn find(&mut self, a: usize) -> (r: usize)
+        requires old(self).wf(), a < usize::MAX
+        ensures final(self).wf(), r == old(self).srep(a as int),
+            forall|x: int| final(self).srep(x) == old(self).srep(x),
+            final(self).srep(r as int) == r,
+    {
+        let r = self.root_index(a);
+        proof { lemma_rep_props(self.parent@, a as int); lemma_root_rep(self.parent@, r as int); }
+        r
+    }
+
+    fn unite(&mut self, a: usize, b: usize)
+        requires old(self).wf(), a < usize::MAX, b < usize::MAX,
+        ensures final(self).wf(),
+            forall|z: int| #![trigger final(self).srep(z)] final(self).srep(z) ==
+                (if old(self).srep(z) == old(self).srep(a as int) || old(self).srep(z) == old(self).srep(b as int)
+                 { final(self).srep(a as int) } else { old(self).srep(z) }),
+            final(self).srep(a as int) == final(self).srep(b as int),
+            final(self).srep(a as int) == old(self).srep(a as int) || final(self).srep(a as int) == old(self).srep(b as int),
+    {
+        let x = self.root_index(a);
+        let y = self.root_index(b);
+        proof {
+            lemma_rep_props(self.parent@, a as int);
+            lemma_rep_props(self.parent@, b as int);
+        }
+
+        if x != y {
+            let rx = self.rank[x];
+            let ry = self.rank[y];
+
+            if rx < ry {
+                proof { lemma_link(self.parent@, x as int, y as int); lemma_nonroots_update(self.parent@, x as int, y); }
+                self.parent[x] = y;
+            } else {
+                if rx == ry {
+                    proof {
+                        lemma_total_ge(self.rank@, x as int);
+                        lemma_nonroots_root(self.parent@, x as int);
+                        assert(rx + 1 <= self.parent@.len());
+                        lemma_total_update(self.rank@, x as int, (rx + 1) as usize);
+                    }
+                    self.rank[x] = rx + 1;
+                }
+                proof { lemma_link(self.parent@, y as int, x as int); lemma_nonroots_update(self.parent@, y as int, x); }
+                self.parent[y] = x;
+            }
+        }
     }
 }
 
